@@ -315,12 +315,24 @@ def distribution_loops(R, rep, rule="R9"):
     F = R.F
     debit_fns = {w[0].parent or w[0].id for c_ in ("consumed", "in_pool", "reserved") for w in R.field_writes(LOT, c_) if w[2] != "construct"}
     n = 0
+    counter_writers = {w[0].id for c_ in ("consumed", "in_pool", "reserved") for w in R.field_writes(LOT, c_) if w[2] != "construct"}
     for b in F.bodies.values():
-        if not b.id.startswith("cgt_core::matcher::acquisition_ledger::AcquisitionLedger::") or b.kind != "method":
+        if not b.id.startswith("cgt_core::matcher::acquisition_ledger::") or b.kind not in ("method", "fn", "closure") or not P.user_written(F, b):
             continue
         tb = None
+        if b.kind == "closure" and not b.loops() and (b.id in counter_writers or any(t_["callee"] in debit_fns for _, t_ in b.calls())):
+            # the body of an internally iterated loop (`lots.for_each(|lot| …)`): `for_each` has no early exit at all; a
+            # `try_for_each` closure that leaves by Break on a lot-dependent test is the same defect in another spelling
+            users = [t_ for pb in F.bodies.values() if pb.id == b.parent for _, t_ in pb.calls() if parse_callee(t_["callee"])[2] in ("for_each", "try_for_each", "try_fold")]
+            if users:
+                n += 1
+                early = any(parse_callee(t_["callee"])[2] != "for_each" for t_ in users)
+                rep.ob(rule, f"{b.short}:internal-iteration", not early, "the lots are walked by for_each (no early exit)" if not early else
+                       "the lots are walked by a short-circuiting try_for_each/try_fold whose exits are not judged", b.loc(), key=f"{rule}:{b.short}:short-circuit")
+            continue
         for h, blks in b.loops():
-            if not any(b.term(x)["k"] == "call" and (b.term(x)["callee"] in debit_fns) for x in blks):
+            if not any(b.term(x)["k"] == "call" and (b.term(x)["callee"] in debit_fns) for x in blks) and not (b.id in counter_writers and any(
+                    st_["lhs"].get("p") and any(isinstance(pj, dict) and pj.get("n") in ("consumed", "in_pool", "reserved") for pj in st_["lhs"]["p"]) for x in blks for st_ in b.stmts(x))):
                 continue
             nexts = [x for x in blks if b.term(x)["k"] == "call" and parse_callee(b.term(x)["callee"])[2] == "next"]
             if len(nexts) != 1:
@@ -349,7 +361,9 @@ def distribution_loops(R, rep, rule="R9"):
                    b.loc(b.term(bad[0])["sp"]) if bad else b.loc(), key=f"{rule}:{b.short}:lot-dependent-exit")
     rep.count("ledger_distribution_loops", n)
     if n < 2:
-        rep.unresolved(rule, "distribution-loops", f"only {n} loops over lots that debit them found in the ledger")
+        # not a floor: a ledger that spreads quantities through a generic walker, positions or internal iteration has fewer (or no)
+        # loops of this shape (behaviour-preserving refactorings r3, r14, r24) — the rule then judges what it finds and says so
+        rep.note(f"{rule}: only {n} loops over lots that debit them recognised in the ledger module (early-exit rule judged on those only)")
 
 
 def run(ctx, rep):
